@@ -20,14 +20,14 @@ class Ctx:
         self.rundir = C.run_dir(chk.PROP.lower() + ('-replay' if single else ''))
         self.pools = {}
         for v, t in chk.TOOLS:
-            self.pools[(v, t)] = TP.ToolPool(v, t, 1 if single else None)
+            self.pools[(v, t)] = TP.ToolPool(v, t, 1 if single else getattr(chk, 'SERVERS', None), prefix=getattr(chk, 'SERVER_PREFIX', None))
         self.memo = {}
 
     def pool(self, tool, variant=None):
         return self.pools[(variant or self.chk.VARIANT, tool)]
 
-    def run(self, tool, template, collect=(), prepare=None, variant=None, keep=False):
-        return R.execute(self.pool(tool, variant), self.rundir, template, collect=collect, prepare=prepare, keep=keep)
+    def run(self, tool, template, collect=(), prepare=None, variant=None, keep=False, name=None):
+        return R.execute(self.pool(tool, variant), self.rundir, template, collect=collect, prepare=prepare, keep=keep, name=name)
 
     def close(self):
         for p in self.pools.values():
